@@ -93,6 +93,11 @@ def run(ctx):
             a = rs.randn(npol, n) if real else rs.randn(npol, n) + 1j * rs.randn(npol, n)
             return a if npol == 2 else a[0]
         s, nz = fld(), (fld() if noisy else None)
+        if n % gv.sps == 0 and it % 2 == 0:
+            with warnings.catch_warnings():
+                warnings.simplefilter("ignore")
+                gv(sps=gv.sps, R=gv.R, N=n // gv.sps)          # a slot count in force whose grid has exactly the record's length
+            fs = gv.fs
         obj = optical_signal(s, nz) if (npol == 2 or it % 5 == 0) else electrical_signal(s, nz)
         for a in (obj.signal, obj.noise):
             if a is not None:
